@@ -12,6 +12,8 @@ Ops (modules are referred to by index in project.modules; everything JSON-able):
   ["chain_r", a, [b..], d]              a >> [b, ..] >> d     (ModuleList returned by the first operator)
   ["chain_l", a, [b..], d]              a << [b, ..] << d
   ["mlist_r_dis", [a..], b]             ModuleList >> ~b  (list obtained as x >> [a..] first is not assumed; built directly)
+  ["mlist_r_list", [a..], [b..]]        ModuleList >> [b, ..]          ["mlist_l_list", [a..], [b..]]   ModuleList << [b, ..]
+  ["chain_r_list", a, [b..], [d..]]     a >> [b, ..] >> [d, ..]        ["chain_l_list", a, [b..], [d..]] a << [b, ..] << [d, ..]
   ["connect", [[i, neg]..], [[j, neg]..]]   project.connect(list, list) with ~ where neg
   ["connect_single", [i, neg], [j, neg]]     project.connect(mod, mod)
   ["x", spelling, a, f]                 cross-project operand f of the second project (must be refused)
@@ -48,6 +50,14 @@ def pairs_of_op(op):
         return [(b, op[1], False) for b in op[2]] + [(op[3], b, False) for b in op[2]]
     if k == "mlist_r_dis":
         return [(a, op[2], True) for a in op[1]]
+    if k == "mlist_r_list":
+        return [(a, b, False) for a in op[1] for b in op[2]]
+    if k == "mlist_l_list":
+        return [(b, a, False) for b in op[2] for a in op[1]]
+    if k == "chain_l_list":
+        return [(b, op[1], False) for b in op[2]] + [(d, b, False) for d in op[3] for b in op[2]]
+    if k == "chain_r_list":
+        return [(op[1], b, False) for b in op[2]] + [(b, d, False) for b in op[2] for d in op[3]]
     if k == "connect":
         return [(f, t, bool(fn or tn)) for f, fn in op[1] for t, tn in op[2]]
     if k == "connect_single":
@@ -121,6 +131,14 @@ class World:
             M(op[1]) << [M(b) for b in op[2]] << M(op[3])
         elif k == "mlist_r_dis":
             ModuleList(p, [M(a) for a in op[1]]) >> ~M(op[2])
+        elif k == "mlist_r_list":
+            ModuleList(p, [M(a) for a in op[1]]) >> [M(b) for b in op[2]]
+        elif k == "mlist_l_list":
+            ModuleList(p, [M(a) for a in op[1]]) << [M(b) for b in op[2]]
+        elif k == "chain_l_list":
+            M(op[1]) << [M(b) for b in op[2]] << [M(d) for d in op[3]]
+        elif k == "chain_r_list":
+            M(op[1]) >> [M(b) for b in op[2]] >> [M(d) for d in op[3]]
         elif k == "connect":
             p.connect([self.wrap(x) for x in op[1]], [self.wrap(x) for x in op[2]])
         elif k == "connect_single":
